@@ -133,7 +133,9 @@ def mark_orphans(mismatches):
         if 'OrphanPot' in m['names'] or ('fault' in m['names'] and 'OrphanPot' in m.get('info', '')):
             first[m['tid']] = min(first.get(m['tid'], 10 ** 9), m['step'])
     for m in mismatches:
-        if m['tid'] in first and m['step'] >= first[m['tid']]:
+        if m['tid'] in first and (m['step'] % 1000 >= first[m['tid']] % 1000 or m['clause'].startswith('twin-')):
+            # (the relation between two runs is decided after both: if one of them ended in the ownerless-pot situation the
+            # relation is not asserted either)
             m['orphan'] = True
 
 
